@@ -278,6 +278,15 @@ impl Parser {
 
         let imported_tokens = self.get_tokens_from_module(&module_path, module_import_name)?;
 
+        // module's tokens can't end with module keyword, import name would be taken from
+        // the importing file's tokens, which are not prefixed with this module's import name
+        if let Some(last_token) = imported_tokens.iter().filter(|t| t.kind != TokenKind::EOT).last() {
+            if last_token.kind == TokenKind::Import {
+                return Err(PakhiErr::SyntaxError(last_token.line, last_token.src_file_path.clone(),
+                                                 "Expected a name for imported module".to_string()));
+            }
+        }
+
         // tokens is inserted after whole module import statement
         // after importing module self.current will point to semicolon of module import statement
         let mut insert_token_at = self.current + 1; // + 1 required to insert after semicolon
